@@ -51,6 +51,15 @@ def docs_for(ref):
     }
 
 
+# paragraph-text surroundings: (source put between 'a' and the reference, what that source displays as).
+# Adjacent markup characters that stay literal (seed C12-7: a bare '&' right before the reference) and paragraphs
+# that already hold many inline tokens inside brackets (seed C12-8: level leak per look-ahead token).
+PRES = [("&", "&"), ("&&", "&&"), ("& ", "& "), ("\\\\", "\\"), ("*", "*"), ("_", "_"), ("]", "]"), ("!", "!"), ("~", "~"), (";", ";"), ("#", "#"),
+        ("&amp", "&amp"), ("&#", "&#"), ("<", "<"), ("\\&", "&"), ("&amp;", "&")]
+CROWDED = [("[" + "a\\+" * 60 + "] ", "[" + "a+" * 60 + "] "), ("[" + "&amp;" * 120 + "]", "[" + "&" * 120 + "]"),
+           ("![" + "\\* " * 101 + "x](", "![" + "* " * 101 + "x]("), ("a\\+" * 250, "a+" * 250), ("[[" + "b&lt;" * 40 + "]" + "c\\]" * 40, "[[" + "b<" * 40 + "]" + "c]" * 40)]
+
+
 def cases(rng, tier, Case):
     res = []
     names = []
@@ -73,6 +82,15 @@ def cases(rng, tier, Case):
         res.append(Case("unesc %s" % hx(r), "unesc", {"unit": 1, "src": hx(r)}))
         if r.startswith("&") and not r.startswith("&#"):
             res.append(Case("ent %s" % hx(r), "ent", {"unit": 1, "src": hx(r)}))
+    sample = refs if tier != "quick" else (rng.sample(names, min(len(names), 25)) + rng.sample(numeric_refs(rng, tier), 25) + ["\\" + c for c in PUNCT] + layered[:4])
+    for r in sample:
+        for j, (pre, disp) in enumerate(PRES):
+            d = "a" + pre + r + "z"
+            res.append(Case("parse Cs 100 TR %s" % hx(d), "ctx-textpre", {"ref": r, "ctx": "textpre", "pre": j, "src": hx(d)}))
+    for r in ["&amp;", "&#65;", "\\*", "&copy;", "&#x3bb;", "\\&", "&ngE;"] + (rng.sample(names, min(len(names), 40)) if tier != "quick" else []):
+        for j, (pre, disp) in enumerate(CROWDED):
+            d = pre + r + "z"
+            res.append(Case("parse Cs 100 TR %s" % hx(d), "ctx-crowded", {"ref": r, "ctx": "crowded", "pre": j, "src": hx(d)}))
     for c in [0, 8, 9, 0xB, 0xD, 0xE, 0x1F, 0x20, 0x7E, 0x7F, 0x9F, 0xA0, 0xD7FF, 0xD800, 0xDFFF, 0xE000, 0xFDCF, 0xFDD0, 0xFDEF, 0xFDF0, 0xFFFE, 0xFFFF, 0x1FFFE, 0x10FFFF, 0x110000, 0xFFFFFFFF] + \
              [rng.randrange(0x120000) for _ in range(100 if tier == "quick" else 3000)]:
         res.append(Case("entcode %d" % c, "entcode", {"unit": 1, "src": "-"}))
@@ -105,6 +123,10 @@ def decoded(case, f):
     if ctx == "text":
         txt = b"".join(text_arg(n) for n in nodes if n.kind in ("Text", "TextSpecial"))
         return txt[1:-1] if txt.startswith(b"a") and txt.endswith(b"z") else None
+    if ctx in ("textpre", "crowded"):
+        txt = b"".join(text_arg(n) for n in nodes if n.kind in ("Text", "TextSpecial"))
+        disp = (("a" + PRES[case.params["pre"]][1]) if ctx == "textpre" else CROWDED[case.params["pre"]][1]).encode()
+        return txt[len(disp):-1] if txt.startswith(disp) and txt.endswith(b"z") else b"<<surroundings changed: %r>>" % txt[:80]
     if ctx.startswith("title"):
         ctx = "title"
     if ctx.startswith("refdef"):
